@@ -70,11 +70,13 @@ type CmdSpec struct {
 	Policy       int               `json:"policy"`
 	MaxSteps     int               `json:"max_steps"`
 	TimeoutSec   int               `json:"timeout_sec"` // watchdog of the child (0: 60 s)
+	CrashAt      int               `json:"crash_at"`    // >0: the command is killed at that scheduling step (whatever it has on disk stays)
 	Sched        simrt.SubTape     `json:"sched"`
 	Env          map[string]string `json:"env"`
 }
 
 type CmdOutcome struct {
+	Killed    bool           `json:"killed"`
 	Exited    bool           `json:"exited"`
 	ExitCode  int            `json:"exit_code"`
 	Panic     string         `json:"panic"`
@@ -180,9 +182,9 @@ func SubCmdMain(t *testing.T) {
 
 	out := &Outcome{Status: "ok"}
 	rc := &RunCtx{T: t, Out: out, Dir: spec.Dir, Sched: simrt.FromSubTape(spec.Sched)}
-	res := rc.Sim(SimOpts{Knobs: spec.Knobs, PoolPolicy: spec.PoolPolicy, YieldDensity: spec.YieldDensity, Policy: spec.Policy, MaxSteps: spec.MaxSteps}, main)
+	res := rc.Sim(SimOpts{Knobs: spec.Knobs, PoolPolicy: spec.PoolPolicy, YieldDensity: spec.YieldDensity, Policy: spec.Policy, MaxSteps: spec.MaxSteps, CrashAt: spec.CrashAt}, main)
 	fout.Sync()
-	co := CmdOutcome{Exited: res.Exited, ExitCode: res.ExitCode, Panic: res.Panic, Deadlock: res.Deadlock, StepCap: res.StepCap,
+	co := CmdOutcome{Killed: res.Killed, Exited: res.Exited, ExitCode: res.ExitCode, Panic: res.Panic, Deadlock: res.Deadlock, StepCap: res.StepCap,
 		Steps: res.Steps, Contended: res.Contended, Tasks: res.Tasks, SimUS: res.SimTimeUS, Sig: res.Sig, Policy: res.Policy,
 		Probes: res.Probes, FatalMsg: res.FatalMsg, LogLines: res.LogLines, Blocked: res.Blocked, Used: rc.Sched.Used()}
 	b, _ := json.Marshal(co)
